@@ -6,7 +6,7 @@ HEADER = '''(* C17  Endpoints move exactly N octets in order whatever the driver
    variants incl. termination of the retry loops; the per-octet, counted and draining source-to-sink plumbing without and with an auxiliary
    buffer (what reached the sink is a prefix of the stream, a success moved exactly the requested octets in order, the calls return;
    at most the one octet - or the one scratch-buffer load - in flight is lost when the sink fails). *)'''
-IMPORTS = '''From Ufw Require Import Base.Bits Base.Errno Model.Endpoints Proof.EndpointsLemmas Proof.EndpointsTotal Proof.EndpointsAux.
+IMPORTS = '''From Ufw Require Import Base.Bits Base.Errno Model.Endpoints Proof.EndpointsLemmas Proof.EndpointsTotal Proof.EndpointsAux Model.ByteBuffer Model.BufEndpoints Proof.BufEndpointsLemmas.
 From Coq Require Import Lia.
 Local Open Scope N_scope.'''
 ITEMS = [
@@ -32,6 +32,10 @@ ITEMS = [
  ('C17_aux_counted_terminates', 'sts_n_aux_total', ''),
  ('C17_aux_drain', 'sts_drain_aux_spec', 'draining through the auxiliary buffer'),
  ('C17_aux_drain_terminates', 'sts_drain_aux_total', ''),
+ ('C17_buffer_source', 'buffer_get_chunk_spec', "the library's own drivers (endpoints/buffer.c), a byte buffer as source: reading N octets delivers exactly the next N unread octets and advances the read position by N; with fewer than N unread it delivers them all and reports end of data"),
+ ('C17_buffer_source_invalid', 'buffer_get_chunk_invalid', ''),
+ ('C17_chunk_list_source', 'chunks_get_chunk_spec', 'a chunk list as source: the unread octets of the chunks from the active one on, in order, across chunk borders and exhausted chunks'),
+ ('C17_buffer_sink', 'buffer_put_chunk_spec', 'a byte buffer as sink: N octets are appended exactly, or the call is refused with ENOMEM and the buffer is unchanged'),
 ]
 EXTRA = '''
 (* non-vacuity: a chunk driver that gives 2, then nothing, is interrupted, then gives the rest; a counted transfer into a sink that takes
